@@ -14,6 +14,13 @@ fn main() {
             names.push((name, src.starts_with("//! whole")));
         }
     }
+    // the main harness compiles only the integrated domains (domains.enabled); a private
+    // harness copy made by bin/agent-env has no such file and compiles what it links
+    if let Ok(list) = fs::read_to_string("domains.enabled") {
+        let enabled: Vec<&str> = list.lines().map(|l| l.trim()).filter(|l| !l.is_empty() && !l.starts_with('#')).collect();
+        names.retain(|(n, _)| enabled.contains(&n.as_str()));
+    }
+    println!("cargo:rerun-if-changed=domains.enabled");
     names.sort();
     let mut out = String::new();
     let root = env::var("CARGO_MANIFEST_DIR").unwrap();
